@@ -62,15 +62,22 @@ static int parse_list(const char **ps, int inside_or) {
 }
 
 /* text -> g_list / g_root; policies separated by '|' */
+/* g_share: every policy of a fallback chain numbers its rules from 0 again, so that the policies of the chain are built from
+ * the SAME rule functions (same function pointers, same rule names), as user policies assembled from the SDK's rules are */
+static int g_share;
 static void parse_chain(const char *s) {
+	int maxleaf = 0;
 	g_nlist = g_nleaf = g_npol = 0;
 	g_has_and_in_or = 0;
 	for (;;) {
 		if (g_npol >= MAXPOL) vf_harness_error("too many policies");
+		if (g_share) g_nleaf = 0;
 		g_root[g_npol++] = parse_list(&s, 0);
+		if (g_nleaf > maxleaf) maxleaf = g_nleaf;
 		if (*s != '|') break;
 		s++;
 	}
+	if (g_share) g_nleaf = maxleaf;
 	if (*s) vf_harness_error("tree syntax: trailing text '%s'", s);
 }
 
@@ -504,6 +511,7 @@ static void part_fallback(void) {
 			*o = 0;
 			if (!vf_case_begin("f:%s", text)) continue;
 			explore("f", text, 5, 1);
+			if (m >= 2) { g_share = 1; explore("fshared", text, 5, 1); g_share = 0; }
 			if (m == 3 && (idx % 1013) == 700) vf_sample("f:%s  (policy|fallback|fallback; %ld reachable outcome assignments executed)", text, c_exec);
 			vf_case_end(1);
 		}
